@@ -56,27 +56,59 @@ func (w *world) nextNonce(k *muxdrv.Key, local map[staking.Address]uint64) uint6
 	return n
 }
 
+// okFee is a fee that passes the minimum gas price of the history (amount >= gas * minimum).
+func (w *world) okFee(hint, gas uint64) *transaction.Fee {
+	if m := w.k.MinGasPrice; m > 0 && hint < gas*m {
+		hint = gas * m
+	}
+	return muxdrv.Fee(hint, gas)
+}
+
+// fee draws the fee shape of a delivered transaction: plausible, nil, amount 0 / gas 0 in all
+// combinations, underpriced, exactly at the minimum gas price, huge amount, gas = MaxUint64.
 func (w *world) fee(local bool) *transaction.Fee {
 	r := w.rng
+	min := w.k.MinGasPrice
+	gas := uint64(muxdrv.DefaultGas)
+	if min >= 1000 {
+		gas = 4000 // keeps "exactly the minimum" affordable
+	}
 	if !w.has(fFees) {
-		return muxdrv.Fee(uint64(10+r.Intn(50)), muxdrv.DefaultGas)
+		return w.okFee(uint64(10+r.Intn(50)), gas)
 	}
-	switch r.Intn(10) {
+	shape := r.Intn(16)
+	tag := ""
+	var f *transaction.Fee
+	switch shape {
 	case 0:
-		return muxdrv.Fee(0, muxdrv.DefaultGas)
+		f, tag = nil, "nil fee"
 	case 1:
-		return &transaction.Fee{Amount: qBig(bigPow2(128)), Gas: muxdrv.DefaultGas}
+		f, tag = muxdrv.Fee(0, 0), "amount 0 gas 0"
 	case 2:
-		return &transaction.Fee{Amount: qBig(new(big.Int).SetUint64(^uint64(0))), Gas: muxdrv.DefaultGas}
+		f, tag = muxdrv.Fee(uint64(1+r.Intn(100000)), 0), "amount > 0 gas 0"
 	case 3:
-		return muxdrv.Fee(1, 0) // buys no gas
+		f, tag = muxdrv.Fee(0, gas), "amount 0 gas > 0"
 	case 4:
-		return &transaction.Fee{Amount: qU(5), Gas: transaction.Gas(^uint64(0))}
+		amt := uint64(0)
+		if min > 0 {
+			amt = gas*min - 1
+		}
+		f, tag = muxdrv.Fee(amt, gas), "just below the minimum price"
 	case 5:
-		return muxdrv.Fee(uint64(1000+r.Intn(100000)), muxdrv.DefaultGas)
+		f, tag = muxdrv.Fee(gas*min, gas), "exactly the minimum price"
+	case 6:
+		f, tag = &transaction.Fee{Amount: qBig(bigPow2(128)), Gas: transaction.Gas(gas)}, "huge amount"
+	case 7:
+		f, tag = &transaction.Fee{Amount: qBig(new(big.Int).SetUint64(^uint64(0))), Gas: transaction.Gas(gas)}, "amount 2^64-1"
+	case 8:
+		f, tag = &transaction.Fee{Amount: qU(5 + min), Gas: transaction.Gas(^uint64(0))}, "gas 2^64-1"
+	case 9:
+		f, tag = &transaction.Fee{Amount: qBig(bigPow2(200)), Gas: transaction.Gas(^uint64(0))}, "gas 2^64-1 huge amount"
 	default:
-		return muxdrv.Fee(uint64(1+r.Intn(50)), muxdrv.DefaultGas)
+		f, tag = w.okFee(uint64(1+r.Intn(50)), gas), "plausible"
 	}
+	w.count("fee-shape/" + tag)
+	return f
 }
 
 // amount picks an extreme or plausible amount relative to a balance.
@@ -423,7 +455,7 @@ func (w *world) randomTx(local map[staking.Address]uint64) (genTx, bool) {
 		}
 		if v.Index < 2 && len(g.Validators) <= 2 {
 			nv := muxdrv.NewValidator(g.Seed, r.Intn(2))
-			tx := muxdrv.TxRegisterNode(w.nextNonce(nv.Node, local), muxdrv.Fee(0, muxdrv.DefaultGas), nv, muxdrv.NodeDescriptor(nv, uint64(2+r.Intn(20)), node.RoleValidator))
+			tx := muxdrv.TxRegisterNode(w.nextNonce(nv.Node, local), w.okFee(0, muxdrv.DefaultGas), nv, muxdrv.NodeDescriptor(nv, uint64(2+r.Intn(20)), node.RoleValidator))
 			return genTx{raw: muxdrv.Sign(nv.Node, tx), kind: "register_node(unknown entity)"}, true
 		}
 		ep := uint64(1)
@@ -431,7 +463,7 @@ func (w *world) randomTx(local map[staking.Address]uint64) (genTx, bool) {
 			ep = w.prev.epoch
 		}
 		exp := ep + uint64(r.Intn(4)) // often about to expire / already expired
-		tx := muxdrv.TxRegisterNode(w.nextNonce(v.Node, local), muxdrv.Fee(0, muxdrv.DefaultGas), v, muxdrv.NodeDescriptor(v, exp, node.RoleValidator))
+		tx := muxdrv.TxRegisterNode(w.nextNonce(v.Node, local), w.okFee(0, muxdrv.DefaultGas), v, muxdrv.NodeDescriptor(v, exp, node.RoleValidator))
 		return genTx{raw: muxdrv.Sign(v.Node, tx), kind: "register_node"}, true
 	case fLong:
 		// a very long, well-signed tx of a random method with a garbage body
@@ -577,7 +609,7 @@ func (w *world) randomBlock(b int) *blockPlan {
 		if w.prev != nil {
 			ep = w.prev.epoch
 		}
-		tx := muxdrv.TxSetEpoch(w.nextNonce(k, local), muxdrv.Fee(1, muxdrv.DefaultGas), ep+1)
+		tx := muxdrv.TxSetEpoch(w.nextNonce(k, local), w.okFee(1, muxdrv.DefaultGas), ep+1)
 		bp.txs = append(bp.txs, genTx{raw: muxdrv.Sign(k, tx), kind: "set_epoch"})
 	}
 	if w.k.Tiny {
@@ -602,7 +634,7 @@ func (w *world) randomBlock(b int) *blockPlan {
 			}
 			for _, v := range w.g.Validators {
 				if !voted[v.EntityAddress()] {
-					tx := muxdrv.TxCastVote(w.nextNonce(v.Entity, local), muxdrv.Fee(uint64(r.Intn(40)), muxdrv.DefaultGas), p.ID, governance.VoteYes)
+					tx := muxdrv.TxCastVote(w.nextNonce(v.Entity, local), w.okFee(uint64(r.Intn(40)), muxdrv.DefaultGas), p.ID, governance.VoteYes)
 					bp.txs = append(bp.txs, genTx{raw: muxdrv.Sign(v.Entity, tx), kind: "cast_vote (campaign)"})
 				}
 			}
@@ -636,12 +668,12 @@ func (w *world) tinyJoiner(b int, local map[staking.Address]uint64) (out []genTx
 		esc := uint64(5 + (int(w.d.HSeed)+7*j)%16) // 5..20
 		switch b {
 		case 1:
-			out = append(out, genTx{raw: muxdrv.Sign(rich.Key, muxdrv.TxTransfer(w.nextNonce(rich.Key, local), muxdrv.Fee(3, muxdrv.DefaultGas), nv.EntityAddress(), 50_000)), kind: "tiny:fund joiner"})
+			out = append(out, genTx{raw: muxdrv.Sign(rich.Key, muxdrv.TxTransfer(w.nextNonce(rich.Key, local), w.okFee(3, muxdrv.DefaultGas), nv.EntityAddress(), 50_000)), kind: "tiny:fund joiner"})
 		case 2:
-			out = append(out, genTx{raw: muxdrv.Sign(nv.Entity, muxdrv.TxAddEscrow(w.nextNonce(nv.Entity, local), muxdrv.Fee(1, muxdrv.DefaultGas), nv.EntityAddress(), esc)), kind: "tiny:self-escrow 5..20"})
-			out = append(out, genTx{raw: muxdrv.Sign(nv.Entity, muxdrv.TxRegisterEntity(w.nextNonce(nv.Entity, local), muxdrv.Fee(1, 4*muxdrv.DefaultGas), nv.Entity, []signature.PublicKey{nv.Node.Public()})), kind: "tiny:register entity"})
+			out = append(out, genTx{raw: muxdrv.Sign(nv.Entity, muxdrv.TxAddEscrow(w.nextNonce(nv.Entity, local), w.okFee(1, muxdrv.DefaultGas), nv.EntityAddress(), esc)), kind: "tiny:self-escrow 5..20"})
+			out = append(out, genTx{raw: muxdrv.Sign(nv.Entity, muxdrv.TxRegisterEntity(w.nextNonce(nv.Entity, local), w.okFee(1, 4*muxdrv.DefaultGas), nv.Entity, []signature.PublicKey{nv.Node.Public()})), kind: "tiny:register entity"})
 		case 3:
-			tx := muxdrv.TxRegisterNode(w.nextNonce(nv.Node, local), muxdrv.Fee(0, 4*muxdrv.DefaultGas), nv, muxdrv.NodeDescriptor(nv, 1000, node.RoleValidator))
+			tx := muxdrv.TxRegisterNode(w.nextNonce(nv.Node, local), w.okFee(0, 4*muxdrv.DefaultGas), nv, muxdrv.NodeDescriptor(nv, 1000, node.RoleValidator))
 			out = append(out, genTx{raw: muxdrv.Sign(nv.Node, tx), kind: "tiny:register validator node"})
 		}
 	}
